@@ -15,7 +15,8 @@ const PIECES: [&str; 29] = [
 ];
 
 pub fn gen_name(rng: &mut Rng, allow_slash: bool, allow_empty: bool) -> String {
-    let n = match rng.below(10) { 0 => if allow_empty { 0 } else { 1 }, 1..=5 => 1 + rng.below(2), 6..=8 => 1 + rng.below(5), _ => 1 + rng.below(30) };
+    // mostly short; now and then beyond any small fixed buffer (a few hundred bytes)
+    let n = match rng.below(10) { 0 => if allow_empty { 0 } else { 1 }, 1..=5 => 1 + rng.below(2), 6..=8 => 1 + rng.below(5), _ => if rng.chance(1, 5) { 60 + rng.below(240) } else { 1 + rng.below(30) } };
     let mut s = String::new();
     for _ in 0..n {
         let p = *rng.pick(&PIECES);
@@ -84,7 +85,9 @@ pub fn gen_block(rng: &mut Rng, wf: bool) -> CanonicalBlock {
         7 | 8 => (6, CanonicalData::PreviousNode(if wf { gen_eid_wf(rng) } else { gen_eid_any(rng) })),
         _ => {
             // unassigned / opaque types: neighbours of the assigned codes 1, 6, 7, 10 (2..5, 8, 9, 11, 12) well represented
-            let t = match rng.below(6) { 0 => rng.u64b(), 1 => 11, 2 => 192, 3 => *rng.pick(&[2u64, 3, 4, 5, 8, 9, 11, 12, 13, 255, 256]), _ => 2 + rng.below(250) };
+            let t = match rng.below(6) { 0 => rng.u64b(), 1 => 11, 2 => 192, 3 => *rng.pick(&[2u64, 3, 4, 5, 8, 9, 11, 12, 13, 255, 256]),
+                // codes that alias an assigned code when truncated or reduced (mod 64, mod 256, mod 2^16, mod 2^32)
+                4 if rng.chance(1, 2) => *rng.pick(&[1u64, 6, 7, 10]) + *rng.pick(&[64u64, 128, 192, 256, 65_536, 1 << 32, 1 << 63]), _ => 2 + rng.below(250) };
             let t = if [1u64, 6, 7, 10].contains(&t) { 11 } else { t };
             (t, CanonicalData::Unknown(gen_payload(rng)))
         }
@@ -171,7 +174,7 @@ pub fn gen_valid_bundle(rng: &mut Rng) -> Bundle {
     if rng.chance(1, 2) { cs.push(new_canonical_block(10, num, bf(rng), CanonicalData::HopCount(*rng.pick(&[1u8, 2, 32, 255]), rng.below(40) as u8))); num += 1 + rng.below(3); }
     if rng.chance(1, 3) { cs.push(new_canonical_block(6, num, bf(rng), CanonicalData::PreviousNode(gen_eid_wf(rng)))); num += 1 + rng.below(3); }
     // opaque extension blocks; the same type may occur several times (only 6, 7, 10 are at-most-once)
-    let opaque: [u64; 12] = [11, 192, 200, 4, 2, 3, 5, 8, 9, 12, 255, 1 << 40];
+    let opaque: [u64; 20] = [11, 192, 200, 4, 2, 3, 5, 8, 9, 12, 255, 1 << 40, 70, 71, 74, 199, 263, 65_542, (1 << 32) + 7, (1 << 32) + 10];
     let rep_t = *rng.pick(&opaque);
     for _ in 0..rng.below(4) { cs.push(new_canonical_block(if rng.chance(1, 2) { rep_t } else { *rng.pick(&opaque) }, num, bf(rng), CanonicalData::Unknown(gen_payload(rng)))); num += 1 + rng.below(3); }
     cs.push(new_canonical_block(1, 1, bf(rng), CanonicalData::Data(gen_payload(rng))));
